@@ -105,6 +105,26 @@ class World:
                     names = names[::-1]
                 vm.set_same(names)
                 union(names)
+            elif kind == "real_chain" and len(self.reals) >= 3:
+                # two calls whose classes must merge: (a,b) then (c,a) - the members of the absorbed class follow
+                a, b, c = (self.reals[(i + k) % len(self.reals)] for k in range(3))
+                if len({a, b, c}) == 3:
+                    vm.set_same([a, b])
+                    union([a, b])
+                    first = [c, a] if j % 2 else [c, b]
+                    vm.set_same(first)
+                    union(first)
+            elif kind == "cplx_chain" and len(self.cplx) >= 3:
+                a, b, c = (self.cplx[(i + k) % len(self.cplx)] for k in range(3))
+                if len({a, b, c}) == 3 and len({vm.complex_vars[x] for x in (a, b, c)}) == 1 and not ({a, b, c} & self.share_r):
+                    vm.set_same([a, b], cplx=True)
+                    second = [c, a] if j % 2 else [c, b]
+                    vm.set_same(second, cplx=True)
+                    for k in "ri":
+                        union([a + k, b + k])
+                        union([x + k for x in second])
+                    self.full_tied.append((a, b))
+                    self.full_tied.append(tuple(second))
             elif kind == "cplx" and len(self.cplx) >= 2:
                 a, b = self.cplx[i % len(self.cplx)], self.cplx[j % len(self.cplx)]
                 if a != b and vm.complex_vars[a] == vm.complex_vars[b] and a not in self.share_r and b not in self.share_r:
@@ -461,7 +481,7 @@ setup_st = st.fixed_dictionaries(
     {
         "reals": st.lists(val, min_size=1, max_size=3),
         "cplx": st.lists(st.tuples(radius, phase, st.booleans()), min_size=1, max_size=4),
-        "ties": st.lists(st.tuples(st.sampled_from(["real", "cplx", "share_r", "real_all"]), st.integers(0, 3), st.integers(0, 3)), max_size=3),
+        "ties": st.lists(st.tuples(st.sampled_from(["real", "cplx", "share_r", "real_all", "real_chain", "cplx_chain"]), st.integers(0, 3), st.integers(0, 3)), max_size=3),
         "fix": st.lists(st.integers(0, 10), max_size=3),
         "bounds": st.lists(st.tuples(st.integers(0, 2), st.sampled_from(["two", "lower", "upper"]), st.floats(0.1, 2.0), st.floats(0.1, 2.0)), max_size=2),
         "order": st.sampled_from(["tfb", "fbt"]),
